@@ -147,14 +147,20 @@ def entry_correspondence(rep, rng, npts, tol=1e-10, sets=None):
         th = theory(fset, m)
         kw = random_kinematics(rng)
         pt, kin = prepared(kw, varphi=rng.uniform(0, 2 * math.pi))
-        tok = tokens(kin, m)
-        for e in I['entries'][fset]:
-            try:
-                v = float(getattr(th, e)(kin))
-            except Exception as ex:
-                v = 'EXC:' + type(ex).__name__
-            lines.append('c06.eval %s %s %s' % (fset, e, tok))
-            meta.append(('entry', fset, e, v, kw, m))
+        # the SAME prepared point object is evaluated with two different sets of CFF / form-factor values
+        # (anything memoised on the point from the first evaluation would leak into the second)
+        for rnd in range(2):
+            if rnd == 1:
+                m = random_m(rng)
+                th = theory(fset, m)
+            tok = tokens(kin, m)
+            for e in I['entries'][fset]:
+                try:
+                    v = float(getattr(th, e)(kin))
+                except Exception as ex:
+                    v = 'EXC:' + type(ex).__name__
+                lines.append('c06.eval %s %s %s' % (fset, e, tok))
+                meta.append(('entry', fset, e, v, kw, m))
         for target in (['U', 'L', 'T'] if fset in LP_SETS else ['U', 'T']):
             kk = dict(kw)
             if target != 'U':
@@ -186,7 +192,11 @@ def entry_correspondence(rep, rng, npts, tol=1e-10, sets=None):
                 2 * rawk.in1energy * (rawk.in2energy + math.sqrt(rawk.in2energy ** 2 - Mp2)) + Mp2)
         lines.append('c06.prepare ' + tokens(rawk, m))
         meta.append(('prepare', fset, 'prepare', pt_values(kin), kw, m))
-    out = common.run_driver(lines)
+    try:
+        out = common.run_driver(lines)
+    except common.ModelUnavailable as ex:
+        rep.coverage['model_unavailable'] = str(ex)[:500]
+        return [('model-unavailable', 'all', str(ex)[:300], None, None, {}, {})]
     worst = 0.0
     broken = []
     for line, (kind, fset, e, v, kw, m), o in zip(lines, meta, out):
